@@ -174,7 +174,7 @@ def normalise(sc_id, events):
         elif k == "HSDone":
             out.append({"e": "HSDone", "salt": salt_rank(e.get("salt"))})
         elif k == "SrvClose":
-            out.append({"e": "SrvClose"})
+            out.append({"e": "SrvClose", "hard": bool(e.get("hard"))})
         elif k == "ConnOpen":
             nconn += 1
             out.append({"e": "ConnOpen", "conn": e["conn"], "first": e["first"], "n": nconn})
